@@ -21,12 +21,12 @@ pub static PROP: Prop = Prop {
            reply was decoded; distinct = (generator class, layout fingerprint, reply kind, field types in the reply).",
     assumptions: &[
         "echoable: transmit timestamp (v3/v4) / client cookie (v5), poll, unique-identifier values (zero-extended to the minimum field size), the v4->v5 upgrade marker in the reference timestamp (documented exception); everything else in the request is non-echoable",
-        "a reflection is an 8-byte window with >= 6 distinct byte values of a non-echoable region found in the reply or its decrypted part; windows that also occur in echoable material of the same request (duplicated unique-id fields, the draft identification string) and the 6 leading bytes of cookies (key id + length, equal for all cookies of a key set) are skipped",
+        "a reflection is an 8-byte window with >= 6 distinct byte values of a non-echoable region found in the reply or its decrypted part; windows that also occur in echoable material of the same request (duplicated unique-id fields, the draft identification string) and the 6 leading bytes of cookies (key id + length, equal for all cookies of a key set) are skipped; reply windows lying entirely inside parts the field-by-field oracle accounts for (echoed origin, whole unique-id fields already matched against the request, draft id, padding, field headers) are not searched",
         "root dispersion is compared with sqrt(base + t*linear + t^2*quadratic + t^3*cubic) at the reception time within 2 units of the wire format; precision, reference timestamp and transmit timestamp are not judged (the statement does not name them)",
         "kiss answers are checked for mode, version, origin echo, stratum 0 and zero receive/transmit timestamps; poll of kiss answers is not judged",
     ],
     profiles: Profiles::Ship,
-    cases: |t| t.pick(25_000, 500_000),
+    cases: |t| t.pick(50_000, 500_000),
     budget_s: |t| t.pick(45, 400),
     run,
     min_nontrivial: 500,
@@ -207,6 +207,7 @@ fn check_reply(c: &mut Case, w: &sim::World, req: &sim::Req, reply: &[u8], recv:
     let q_uids: Vec<&RefField> = qp.fields.iter().filter(|f| f.type_id == EF_UNIQUE_ID).collect();
     let status = sim::nts_status(q, &w.keys.current());
     let mut opened_plain: Option<Vec<u8>> = None;
+    let mut opened_mask: Vec<bool> = Vec::new();
     if rp.header.version == 3 && (reply.len() != 48) {
         bad!("fields/v3-extra-bytes", "an NTPv3 answer carries bytes after the header", json!(null));
     }
@@ -254,6 +255,7 @@ fn check_reply(c: &mut Case, w: &sim::World, req: &sim::Req, reply: &[u8], recv:
                         if o.leftover > 0 {
                             bad!("fields/encrypted-leftover", "the decrypted part of the reply does not consist of whole fields", json!({"plaintext": hex(&o.plaintext)}));
                         }
+                        opened_mask = sim::explained_mask(&o.plaintext, &o.fields, false);
                         opened_plain = Some(o.plaintext);
                     }
                     _ => c.inc("nts_reply_not_opened_left_to_c19"),
@@ -267,12 +269,14 @@ fn check_reply(c: &mut Case, w: &sim::World, req: &sim::Req, reply: &[u8], recv:
     // ---- reflection scan ----
     c.inc("reflection_scans");
     let mut hay: Vec<&[u8]> = vec![reply];
+    let mut masks = vec![sim::explained_mask(reply, &rp.fields, true)];
     if let Some(p) = &opened_plain {
         hay.push(p);
+        masks.push(opened_mask.clone());
     }
     let ranges = sim::nonechoable_ranges(q);
     let echoable = sim::echoable_material(q);
-    if let Some((off, label, which)) = sim::find_reflection_excluding(q, &ranges, &hay, &echoable) {
+    if let Some((off, label, which)) = sim::find_reflection_masked(q, &ranges, &hay, &masks, &echoable) {
         let place = if which == 0 { "plaintext" } else { "decrypted" };
         bad!(format!("reflect/{}/{place}/{kname}", label.replace(' ', "-")), format!("8 bytes of the request's {label} (offset {off}) occur in the reply ({place})"), json!({"request_offset": off, "bytes": hex(&q[off..off + 8])}));
     }
@@ -285,7 +289,7 @@ fn check_reply(c: &mut Case, w: &sim::World, req: &sim::Req, reply: &[u8], recv:
     if let Some(p) = enc_plain {
         let (fields, _) = sim::walk_fields(&p, v5);
         let ranges: Vec<(usize, usize, &'static str)> = fields.iter().filter(|f| f.type_id != EF_UNIQUE_ID).map(|f| (f.offset + 4, f.offset + 4 + f.value.len(), "encrypted request field")).collect();
-        if let Some((off, _, which)) = sim::find_reflection_excluding(&p, &ranges, &hay, &echoable) {
+        if let Some((off, _, which)) = sim::find_reflection_masked(&p, &ranges, &hay, &masks, &echoable) {
             let place = if which == 0 { "plaintext" } else { "decrypted" };
             bad!(format!("reflect/encrypted-request-field/{place}/{kname}"), "8 bytes of an encrypted request field occur in the reply", json!({"plaintext_offset": off, "bytes": hex(&p[off..off + 8])}));
         }
